@@ -170,6 +170,11 @@ def cases(draw, tier='quick', driver=None, big=False):
         # diagnostics may fail, recording the lost layer must not depend on it
         ascii_console = True
         at_import(['in_child', ['noise', 'fd2', 'd\xc3\xa9marrage du service: \xe2\x9c\x93\n', 1], tgt])
+    if fkind == 'none' and not want_ascii and draw(st.sampled_from(range(20))) == 19:
+        # a test leaves a helper process behind that keeps the child's real stderr open for a while after the child itself
+        # has exited: the report is complete, the parent has to wait for the end of the stream and use it
+        at_test(0, 'body')(['in_child', ['leave_process', 5.6], tgt])
+        spec['left_process'] = True
     if draw(st.integers(0, 5)) == 0:
         # a module that cannot be imported: parent and child both meet it during discovery (it is reported once, by the
         # parent, and is no part of the child's report)
@@ -180,7 +185,8 @@ def cases(draw, tier='quick', driver=None, big=False):
     if verbose == 0 and driver != 'inproc':
         verbose = 1       # (without -v the lists are not printed: they are read from the Runner object, in-process only)
     return {'spec': spec, 'mode': mode, 'fault': fault, 'driver': driver, 'verbose': verbose,
-            'big': has_big, 'repeat': draw(st.sampled_from([1, 1, 1, 1, 2, 3])), 'ascii_console': ascii_console}
+            'big': has_big, 'repeat': 1 if spec.get('left_process') else draw(st.sampled_from([1, 1, 1, 1, 2, 3])),
+            'ascii_console': ascii_console}
 
 
 def _ran_ok(total, executed, repeat):
@@ -223,6 +229,8 @@ def oracle(case, spec, run):
     pfull = model.layer_fullname(spec, 0)
     labels = [case['mode'], case['driver'], 'fault:' + fault['kind']]
     # (modules that cannot be imported are counted among the errors of the Total line and listed under their own heading)
+    if spec.get('left_process'):
+        labels.append('helper-process-holds-stderr-open')
     nimport = sum(1 for m in spec['modules'] if m.get('fail'))
     if nimport:
         labels.append('import-failure')
@@ -387,7 +395,7 @@ def _what(fault, tgt):
 
 class Channel(Part):
     name = 'channel'
-    examples = {'quick': 1200, 'thorough': 12000}
+    examples = {'quick': 1000, 'thorough': 12000}
     shrink_cap = {'quick': 60, 'thorough': 300}
 
     def __init__(self):
